@@ -108,11 +108,16 @@ public:
 
   void reset(pointer ptr = nullptr) noexcept
   {
-    if (ptr_ != nullptr)
+    // Store the new pointer before destroying the old object, like std::unique_ptr does. The
+    // destructor of the old object may look at this unique_ptr, reset it again or even destroy it
+    // (an object that owns itself through a unique_ptr member, a node that closes a cycle):
+    // deleting first would leave a dangling ptr_ visible and delete the object a second time.
+    pointer old = ptr_;
+    ptr_        = ptr;
+    if (old != nullptr)
     {
-      this->delete_ptr();
+      delete_ptr(old);
     }
-    ptr_ = ptr;
   }
 
   pointer release() noexcept
@@ -127,15 +132,15 @@ public:
 private:
   pointer ptr_;
 
-  void delete_ptr() noexcept
+  static void delete_ptr(pointer ptr) noexcept
   {
     if (std::is_array<T>::value)
     {
-      delete[] ptr_;
+      delete[] ptr;
     }
     else
     {
-      delete ptr_;
+      delete ptr;
     }
   }
 };
